@@ -383,15 +383,14 @@ def run_sharded(exe, lines, tag, shards=NPROC, **kw):
     if len(lines) < 64 or shards <= 1:
         return run_exe(exe, lines, tag, **kw)
     n = len(lines)
-    size = (n + shards - 1) // shards
-    chunks = [(i, lines[i:i + size]) for i in range(0, n, size)]
+    # round-robin: generators emit their large cases next to one another, contiguous chunks would put them all in one shard
+    chunks = [(i, lines[i::shards]) for i in range(shards)]
     out = [None] * n
     with concurrent.futures.ThreadPoolExecutor(max_workers=shards) as ex:
-        futs = {ex.submit(run_exe, exe, ch, '%s_%d' % (tag, i), **kw): (i, len(ch)) for i, ch in chunks}
+        futs = {ex.submit(run_exe, exe, ch, '%s_%d' % (tag, i), **kw): i for i, ch in chunks if ch}
         for fu in concurrent.futures.as_completed(futs):
-            i, ln = futs[fu]
-            r = fu.result()
-            out[i:i + ln] = r
+            i = futs[fu]
+            out[i::shards] = fu.result()
     return out
 
 
